@@ -8,7 +8,7 @@ def H(name, tier="quick", **kw):
 
 
 PROPS = {}
-HOOK_COMMITS = ["7a26697"]
+HOOK_COMMITS = ["7a26697", "a47c300"]
 NOT_APPLICABLE = {
     "C02": "acceptance is decided by pass 1/pass 2 over a Vec<Stmt> with HashMap<String,_> and BTreeMap: symbolic execution of SymbolTable::new on a 5-statement all-concrete AST (stack array, S-hash/S-upper stubs) did not finish in 600 s / 11 GB (DESIGN.md section 9); there is no public kernel below it",
     "C03": "needs the logos lexer + parser on symbolic text (3 symbolic bytes: symex out of memory, DESIGN.md section 1). A token-level variant (hook Parser::verif_from_tokens) would drive the Parse impls over a heap Vec<(Token, Span)> with String payloads - the heap-Vec limitation of section 9 - and would not carry the layout-insensitivity half of the property anyway; not built",
